@@ -9,6 +9,7 @@ use std::io::Write;
 pub fn dispatch(cmd: &str, a: &Args) -> Option<Result<()>> {
     match cmd {
         "trace-naming" => Some(trace(a)),
+        "trace-preprocess" => Some(trace_preprocess(a)),
         _ => None,
     }
 }
@@ -37,5 +38,45 @@ fn trace(a: &Args) -> Result<()> {
     }
     out.flush()?;
     println!("{}", json!({"ids": ids.len()}));
+    Ok(())
+}
+
+/// trace-preprocess: ragc_core::preprocessing::preprocess_raw_contig on every single byte of the domain (letters, bytes < 64),
+/// on all byte pairs over a small alphabet, and on random lines of every length 0..=40 (all unrolled paths: len % 4 and the main loop).
+pub fn trace_preprocess(a: &Args) -> Result<()> {
+    use rand::Rng;
+    crate::util::install_panic_hook();
+    let dom: Vec<u8> = (0u8..64).chain(65..=90).chain(97..=122).collect();
+    let mut inputs: Vec<Vec<u8>> = vec![vec![]];
+    for &c in &dom {
+        inputs.push(vec![c]);
+    }
+    let small = [b'A', b'c', b'N', b'x', b'U', b'\r', b' ', b'-', b'9', b'y'];
+    for &x in &small {
+        for &y in &small {
+            inputs.push(vec![x, y]);
+            inputs.push(vec![x, y, x]);
+        }
+    }
+    let mut r = crate::util::rng(a.num("seed", 1u64));
+    for len in 0..=40usize {
+        for _ in 0..a.num("per-len", 6usize) {
+            inputs.push((0..len).map(|_| dom[r.gen_range(0..dom.len())]).collect());
+        }
+    }
+    let mut out = std::io::BufWriter::new(std::fs::File::create(a.get("out")?)?);
+    for inp in &inputs {
+        let mut v = inp.clone();
+        let res = crate::util::catch(std::panic::AssertUnwindSafe(|| {
+            ragc_core::preprocessing::preprocess_raw_contig(&mut v);
+            v
+        }));
+        match res {
+            Ok(o) => writeln!(out, "{}", json!({"inp": inp, "out": o, "result": "ok"}))?,
+            Err(p) => writeln!(out, "{}", json!({"inp": inp, "out": [], "result": "panic", "msg": p}))?,
+        }
+    }
+    out.flush()?;
+    println!("{}", json!({"inputs": inputs.len()}));
     Ok(())
 }
